@@ -131,6 +131,7 @@ impl<'a, R: RealNumberInternalTrait> Default for LibraryLoader<'a, R> {
 
 pub struct Interpreter<'a, R: RealNumberInternalTrait> {
     pub env: Rc<Environment<R>>,
+    syntax_env: Rc<LexicalScope<Transformer>>, // macros defined through this interpreter
     lib_loader: LibraryLoader<'a, R>,
     libraries: HashMap<LibraryName, Library<R>>, // instantiated once per interpreter
     imported_library: HashSet<LibraryName>,
@@ -149,6 +150,7 @@ impl<'a, R: RealNumberInternalTrait> Interpreter<'a, R> {
     pub fn with_environment(environment: Rc<Environment<R>>) -> Self {
         let mut interpreter = Self {
             env: environment,
+            syntax_env: new_syntax_environment(),
             lib_loader: LibraryLoader::default(),
             libraries: HashMap::new(),
             imported_library: HashSet::new(),
@@ -714,7 +716,7 @@ impl<'a, R: RealNumberInternalTrait> Interpreter<'a, R> {
     pub fn eval(&mut self, char_stream: impl Iterator<Item = char>) -> Result<Option<Value<R>>> {
         {
             let lexer = Lexer::from_char_stream(char_stream);
-            let mut parser = Parser::from_lexer(lexer);
+            let mut parser = Parser::from_lexer_with_syntax(lexer, self.syntax_env.clone());
             parser.try_fold(None, |_, statement| self.eval_root_ast(&statement?))
         }
     }
